@@ -8,4 +8,9 @@ def harnesses():
                      "carry thresholds), a and b = small(2 bits) or m-1-small; inv by an independent Newton iteration; "
                      "oracle: a*b + k*m = r*2^64 (+ m*2^64), k = a*b*inv mod 2^64, r < m", free_bits=11,
               fns=["algorithms::mul_redc", "algorithms::square_redc", "Uint::mul_redc", "Uint::square_redc"],
-              covers_required=["subtract-taken", "extra-carry"])]
+              covers_required=["subtract-taken", "extra-carry"]),
+            H("c11_redc1_square_uint", "C11", "c11::redc1::<1>", unwind=8, tier="thorough", timeout=3600,
+              inst="mul_redc::<1>, square_redc::<1>, Uint<64,1>::{mul_redc, square_redc}",
+              domain="same lattice; additionally square_redc against its own definition and the Uint methods against "
+                     "the slice-level results", free_bits=11,
+              fns=["algorithms::mul_redc", "algorithms::square_redc", "Uint::mul_redc", "Uint::square_redc"])]
